@@ -6,6 +6,7 @@ import (
 	"sync"
 	"testing"
 
+	"github.com/iotaledger/hive.go/ds"
 	"github.com/iotaledger/hive.go/ds/reactive"
 	"pgregory.net/rapid"
 	"verifharness/internal/ctl"
@@ -564,6 +565,8 @@ func TestGraphSeq(t *testing.T) {
 // ---------------------------------------------------------------------------------------------------------
 
 type graphConcProg struct {
+	SlowBefore int         `json:"slow_before"` // every input gets an observer registered BEFORE the graph that yields this often in its callback
+	SlowAfter  int         `json:"slow_after"`  // ... and one registered after the setup actions
 	VarInit    []int       `json:"var_init"`
 	SetInit    [][]int     `json:"set_init"`
 	Setup      []gAction   `json:"setup"`      // structural actions executed before the goroutines start
@@ -572,7 +575,7 @@ type graphConcProg struct {
 }
 
 func (p graphConcProg) strings() []string {
-	out := []string{fmt.Sprintf("vars %v sets %v", p.VarInit, p.SetInit)}
+	out := []string{fmt.Sprintf("vars %v sets %v slow observers %d/%d", p.VarInit, p.SetInit, p.SlowBefore, p.SlowAfter)}
 	join := func(l []gAction) string {
 		var s []string
 		for _, a := range l {
@@ -593,23 +596,38 @@ func (p graphConcProg) strings() []string {
 func runGraphConc(p graphConcProg) verdict {
 	w := newWorld(p.VarInit, p.SetInit)
 	var clock ctl.Clock
+	// observers that only yield: they stretch the window between "input holds the new value" and "derived values
+	// have been recomputed" (registered first) and the callback phase as a whole (registered last)
+	slow := func(n int) {
+		if n == 0 {
+			return
+		}
+		for _, v := range w.vars {
+			v.OnUpdate(func(_, _ int) { gosched(n) })
+		}
+		for _, s := range w.sets {
+			s.OnUpdate(func(ds.SetMutations[int]) { gosched(n) })
+		}
+	}
+	slow(p.SlowBefore)
 	setup := newTable(w)
 	for _, a := range p.Setup {
 		setup.structural(a)
 	}
+	slow(p.SlowAfter)
 	tables := []*table{setup}
 	for range p.Structural {
 		tables = append(tables, newTable(w))
 	}
 	writeStamps := make([][]stampPair, len(p.Writers))
 	structStamps := make([][]stampPair, len(p.Structural))
-	start := make(chan struct{})
+	var start barrier
 	var wg sync.WaitGroup
 	for wi, script := range p.Writers {
 		wg.Add(1)
 		go func(wi int, script []gAction) {
 			defer wg.Done()
-			<-start
+			start.wait()
 			for _, a := range script {
 				gosched(a.Yld)
 				st := stampPair{A: clock.Tick()}
@@ -623,7 +641,7 @@ func runGraphConc(p graphConcProg) verdict {
 		wg.Add(1)
 		go func(gi int, script []gAction) {
 			defer wg.Done()
-			<-start
+			start.wait()
 			t := tables[gi+1]
 			for _, a := range script {
 				gosched(a.Yld)
@@ -635,7 +653,7 @@ func runGraphConc(p graphConcProg) verdict {
 		}(gi, script)
 	}
 	v := verdict{}
-	if !ctl.Within(hangTimeout(), func() { close(start); wg.Wait() }) {
+	if !ctl.Within(hangTimeout(), func() { start.release(len(p.Writers) + len(p.Structural)); wg.Wait() }) {
 		hangSeen.Store(true)
 		v.Hang = true
 		v.Msg = "run did not finish within the hang bound; goroutine dump:\n" + ctl.Dump()
@@ -689,7 +707,7 @@ const checkGraphConc = "graph_concurrent"
 func TestGraphConc(t *testing.T) {
 	stats.Rule(checkGraphConc, "same graph elements as graph_sequential. rapid draws the inputs, 0-5 structural setup actions, 1-4 writer goroutines (1-8 writes each on any input, drawn yields) and 0-2 structural goroutines (1-6 structural actions each, private node table over the shared inputs). Interleaving is the Go scheduler's. Oracle at quiescence (all goroutines returned; every action is synchronous): each node == its defining function of the current inputs; 20 s hang watchdog with goroutine dump. Non-trivial = at least one node and (writes of two writers overlapped or a structural action overlapped a write, by stamps). Distinct by program.")
 	rapid.Check(t, func(rt *rapid.T) {
-		p := graphConcProg{}
+		p := graphConcProg{SlowBefore: rapid.IntRange(0, 2).Draw(rt, "slowBefore"), SlowAfter: rapid.IntRange(0, 2).Draw(rt, "slowAfter")}
 		p.VarInit, p.SetInit = genInputs(rt)
 		yielded := func(g *rapid.Generator[gAction]) *rapid.Generator[gAction] {
 			return rapid.Custom(func(t *rapid.T) gAction {
